@@ -6,6 +6,8 @@ import Splipy.Lemmas.Elevation
 import Splipy.Lemmas.SchoenbergWhitney
 import Splipy.Lemmas.C05Clamped
 import Splipy.Lemmas.C05Volume
+import Splipy.Lemmas.C05Periodic
+import Splipy.Lemmas.C05Lower
 
 /-!
 # Property C05 — order elevation preserves geometry and continuity; lowering undoes it
@@ -13,13 +15,19 @@ import Splipy.Lemmas.C05Volume
 Model: `Splipy/Model/Order.lean` (+ `Basis.raiseOrder`, `knotSpans`, `continuity` in
 `Model/BasisOps.lean`).  Helper lemmas: `Lemmas/C05Knots.lean`, `C05LinAlg.lean`, `C05Geometry.lean`.
 
-Status: for clamped non-periodic continuous bases in ONE parametric direction C05 is a full proof
-(`C05_knots` + `C05_geometry_clamped_full` + `C05_lower_left_inverse_clamped` + `C05_api`): both
-analytic facts, degree-elevation inclusion (`Lemmas/Elevation.lean`) and Schoenberg–Whitney at the
-Greville points (`Lemmas/SchoenbergWhitney.lean`), are proved.  Still partial: periodic bases
-(`C05_geometry_partial` / `C05_lower_left_inverse_partial` with named hypotheses; the pinned
-`lower_order` raises `NameError` there), the composition of the per-direction steps for pardim 2–3,
-and order-1 objects (no Greville points / `lower_order` refuses order 1 — listed findings).
+Status: for clamped non-periodic continuous bases C05 is a full proof, with both analytic facts
+(degree-elevation inclusion `Lemmas/Elevation.lean`, Schoenberg–Whitney at the Greville points
+`Lemmas/SchoenbergWhitney.lean`) proved:
+* one direction: `C05_knots` + `C05_geometry_clamped_full` + `C05_lower_left_inverse_clamped` + `C05_api`;
+* surfaces: `C05_geometry_clamped_surface` (raise, both directions re-interpolated at once, any
+  amounts incl. 0 in one direction) and `C05_lower_left_inverse_clamped_surface`;
+* volumes: `C05_geometry_clamped_volume` and `C05_lower_left_inverse_clamped_volume`.
+Periodic bases: the knot bookkeeping incl. the ghost-knot trimming is proved (`C05_knots_periodic`,
+standard periodic vectors whose ghost regions fit into one period).
+Still partial: the geometry part for periodic bases (`C05_geometry_partial` /
+`C05_lower_left_inverse_partial` with the named hypotheses `H_incl`, `H_sw`; the pinned `lower_order`
+raises `NameError` there), and order-1 objects (no
+Greville points / `lower_order` refuses order 1 — listed findings).
 
 Notation: a clamped (open) knot vector of order `p` is `expand (clampedU x0 xl umid) (clampedM p mmid)`
 — end knots `x0`, `xl` with multiplicity `p`, interior distinct knots `umid` with multiplicities
@@ -136,6 +144,65 @@ theorem C05_hsw_forms (b' : Basis K) (tol : K) (pts : Array K) (hg : b'.greville
   rw [hlen] at hshape
   exact ⟨Mat.invChecked_eq_inv _ pts.size hshape,
     fun L hL => Mat.invChecked_complete _ pts.size hshape L hL⟩
+
+/-- **C05, knot vectors of PERIODIC bases (ghost-knot trimming `knots[n0·a : −n1·a]`).**
+A standard periodic basis of order `p` and continuity `k` is given by one period: distinct knots
+`w0 :: wr` (`w0 = start`), multiplicities `μ0 :: μr`, period `T`;
+`perKnots = last (k+1) knots of (P − T) ++ P ++ first p knots of (P + T)`, `P = expand w μ`.
+Hypotheses `PerData`: distinct knots more than `tol > 0` apart, also across the seam; positive
+multiplicities; both ghost regions fit into one period (`k+1 ≤ n`, `p ≤ n`, `n = Σμ =
+num_functions`); `k + 2 ≤ p ≤ k + 1 + μ0` (so `start = w0`) and `μ0 < p` (a distinct knot beyond
+`end`; otherwise the Python slice `[: -0]` empties the vector).  Then `raise_order(a)`, any `a`:
+* succeeds and returns the standard periodic basis of order `p + a`, the SAME `k`, period and
+  distinct knots, every multiplicity raised by `a` — the two trimmed ghost regions are again exactly
+  the last `k+1` / first `p+a` knots of the shifted raised period;
+* both bases are `Valid` (sorted, ghost knots repeat with the period); `start`, `end`, `periodic`
+  unchanged; `num_functions` grows by `a` per distinct knot of the period;
+* `continuity` is unchanged (`p − 1 − multiplicity`) at every distinct knot of the period and at `end`;
+* the unfixed `lower_order` raises `NameError` on the result (listed finding), for every amount
+  that passes the argument checks.
+Not covered: periodic bases whose ghost regions span more than one period (`n < p`), and — see
+`C05_geometry_partial` — the geometry part (`H_incl`, `H_sw`) for periodic bases. -/
+theorem C05_knots_periodic {tol : K} {p k : ℕ} {w0 : K} {wr : List K} {μ0 : ℕ} {μr : List ℕ} {T : K}
+    (h : PerData tol p k w0 wr μ0 μr T) (htol : 0 < tol) (a : ℕ) :
+    let b := perBasis p k (w0 :: wr) (μ0 :: μr) T
+    let b' := perBasis (p + a) k (w0 :: wr) ((μ0 :: μr).map (· + a)) T
+    b.raiseOrder tol a = .ok b' ∧
+    b'.order = p + a ∧ b'.periodic = b.periodic ∧ b'.start = b.start ∧ b'.stop = b.stop ∧
+    b.Valid ∧ b'.Valid ∧ b'.numFunctions = b.numFunctions + a * (wr.length + 1) ∧
+    (∀ (w1 w2 : List K) (x : K) (m1 m2 : List ℕ) (c : ℕ), w0 :: wr = w1 ++ x :: w2 →
+      μ0 :: μr = m1 ++ c :: m2 → w1.length = m1.length →
+      b'.continuity tol x = b.continuity tol x ∧ b.continuity tol x = .ok (some ((p : Int) - 1 - (c : Int)))) ∧
+    (b'.continuity tol b.stop = b.continuity tol b.stop ∧
+      b.continuity tol b.stop = .ok (some ((p : Int) - 1 - (μ0 : Int)))) ∧
+    (∀ l : Int, 0 ≤ l → 2 ≤ ((p + a : ℕ) : Int) - l → b'.lowerOrder tol l = .error .name) := by
+  intro b b'
+  have h' := h.raise a
+  have hmap : (μ0 :: μr).map (· + a) = (μ0 + a) :: μr.map (· + a) := by simp
+  obtain ⟨s1, e1, n1⟩ := h.start_stop
+  obtain ⟨s2, e2, n2⟩ := h'.start_stop
+  rw [← hmap] at s2 e2 n2
+  obtain ⟨c1, c1e⟩ := h.continuity htol
+  obtain ⟨c2, c2e⟩ := h'.continuity htol
+  rw [← hmap] at c2 c2e
+  refine ⟨raiseOrder_periodic h htol a, rfl, rfl, by rw [s1, s2], by rw [e1, e2], h.valid htol.le,
+    by have := h'.valid htol.le; rw [← hmap] at this; exact this, ?_, ?_, ?_, ?_⟩
+  · rw [n1, n2, sum_map_add]
+    have := h.len
+    rw [Nat.mul_succ, this]; omega
+  · intro w1 w2 x m1 m2 c hw hμ hl
+    have hμ' : (μ0 :: μr).map (· + a) = m1.map (· + a) ++ (c + a) :: m2.map (· + a) := by rw [hμ]; simp
+    have r2 := c2 w1 w2 x (m1.map (· + a)) (m2.map (· + a)) (c + a) hw hμ' (by simpa using hl)
+    have r1 := c1 w1 w2 x m1 m2 c hw hμ hl
+    refine ⟨?_, ?_⟩
+    · rw [r2, r1]; congr 2; push_cast; ring
+    · rw [r1]; congr 2; ring
+  · rw [e1]
+    refine ⟨?_, ?_⟩
+    · rw [c2e, c1e]; congr 2; push_cast; ring
+    · rw [c1e]; congr 2; ring
+  · intro l hl0 hl2
+    exact lowerOrder_periodic_nameError b' tol (by show (0 : Int) ≤ (k : Int); omega) l hl0 hl2
 
 /-- **C05, geometry (partial).**  One parametric direction (curves; and every per-direction step
 of the tensor-product interpolation).  `o` has the single basis `b` and control net of shape
@@ -462,6 +529,60 @@ theorem C05_geometry_clamped_surface (tol : K) (htol : 0 < tol)
     intro j hj
     exact mul_nonneg (hpos a (Finset.mem_range.mp ha) j (Finset.mem_range.mp hj)) (hEv0 j k1)
 
+/-- **C05, `lower_order` undoes `raise_order` on SURFACES — FULL (no analytic hypothesis).**
+Hypotheses of `C05_geometry_clamped_surface` with both original orders at least 2 (`q_u, q_v ≥ 1`:
+`lower_order` refuses to return to order 1).  Let `o'` be the surface `raise_order(a_u, a_v)` returns.
+Then `o'.lower_order(a_u, a_v)` succeeds and returns a NEW object with the original bases (hence the
+original knot vectors), the original control-array shape and rationality, and exactly the original
+control points — so it evaluates to the original map.  (Per direction the lowering interpolation is
+the linear map `(inv N_b · N_{b'})ᵀ`, a left inverse of the elevation matrix: `elev_lower_id`.) -/
+theorem C05_lower_left_inverse_clamped_surface (tol : K) (htol : 0 < tol)
+    (qu au : ℕ) (hqu : 1 ≤ qu) (x0u xlu : K) (umidu : List K) (mmidu : List ℕ)
+    (hlenu : umidu.length = mmidu.length) (hmu : ∀ j ∈ mmidu, 1 ≤ j ∧ j ≤ qu)
+    (hgapu : Separated (2 * ((qu + au : ℕ) : K) * tol) (clampedU x0u xlu umidu))
+    (qv av : ℕ) (hqv : 1 ≤ qv) (x0v xlv : K) (umidv : List K) (mmidv : List ℕ)
+    (hlenv : umidv.length = mmidv.length) (hmv : ∀ j ∈ mmidv, 1 ≤ j ∧ j ≤ qv)
+    (hgapv : Separated (2 * ((qv + av : ℕ) : K) * tol) (clampedU x0v xlv umidv))
+    (hnz : au ≠ 0 ∨ av ≠ 0)
+    (o : Obj K) (hw : C06.WF o 2)
+    (hb0 : o.basis 0 = openBasis (qu+1) (clampedU x0u xlu umidu) (clampedM (qu+1) mmidu))
+    (hb1 : o.basis 1 = openBasis (qv+1) (clampedU x0v xlv umidv) (clampedM (qv+1) mmidv)) :
+    ∃ o' o'', o.raiseOrder tol [(au : Int), (av : Int)] none = .ok (.self, o')
+      ∧ o'.lowerOrder tol [(au : Int), (av : Int)] = .ok (.new, o'') ∧ o''.bases = o.bases
+      ∧ o''.cps.shape = o.cps.shape ∧ o''.rational = o.rational
+      ∧ ∀ a, a < (o.basis 0).numFunctions → ∀ j, j < (o.basis 1).numFunctions → ∀ i, i < o.ncomp →
+          o''.cps.get ((a * (o.basis 1).numFunctions + j) * o.ncomp + i)
+            = o.cps.get ((a * (o.basis 1).numFunctions + j) * o.ncomp + i) := by
+  obtain ⟨o', himp, hpub, _⟩ := C05_geometry_clamped_surface tol htol qu au (by omega) x0u xlu umidu mmidu hlenu hmu hgapu
+    qv av (by omega) x0v xlv umidv mmidv hlenv hmv hgapv hnz o hw hb0 hb1
+  obtain ⟨Eu, _, hdu⟩ := dirOK_clamped tol htol qu au (by omega) x0u xlu umidu mmidu hlenu hmu hgapu
+  obtain ⟨Ev, _, hdv⟩ := dirOK_clamped tol htol qv av (by omega) x0v xlv umidv mmidv hlenv hmv hgapv
+  have mono : ∀ (q a : ℕ), 1 ≤ q → tol ≤ 2 * ((q + a : ℕ) : K) * tol ∧ 2 * ((q + 0 : ℕ) : K) * tol ≤ 2 * ((q + a : ℕ) : K) * tol := by
+    intro q a hq
+    have h1 : (1 : K) ≤ ((q + a : ℕ) : K) := by exact_mod_cast (by omega : 1 ≤ q + a)
+    have h2 : ((q + 0 : ℕ) : K) ≤ ((q + a : ℕ) : K) := by exact_mod_cast (by omega : q + 0 ≤ q + a)
+    constructor <;> nlinarith
+  have hsepu : Separated tol (clampedU x0u xlu umidu) := separated_mono (mono qu au hqu).1 hgapu
+  have hsepv : Separated tol (clampedU x0v xlv umidv) := separated_mono (mono qv av hqv).1 hgapv
+  have hlu := lowerOrder_raised tol htol (qu+1) au (by omega) x0u xlu umidu mmidu hlenu hsepu (fun j hj => (hmu j hj).1)
+  have hlv := lowerOrder_raised tol htol (qv+1) av (by omega) x0v xlv umidv mmidv hlenv hsepv (fun j hj => (hmv j hj).1)
+  obtain ⟨_, _, hd0u⟩ := dirOK_clamped tol htol qu 0 (by omega) x0u xlu umidu mmidu hlenu hmu
+    (separated_mono (mono qu au hqu).2 hgapu)
+  obtain ⟨_, _, hd0v⟩ := dirOK_clamped tol htol qv 0 (by omega) x0v xlv umidv mmidv hlenv hmv
+    (separated_mono (mono qv av hqv).2 hgapv)
+  have e0u : openBasis (qu+1+0) (clampedU x0u xlu umidu) (clampedM (qu+1+0) (mmidu.map (· + 0)))
+      = openBasis (qu+1) (clampedU x0u xlu umidu) (clampedM (qu+1) mmidu) := by simp
+  have e0v : openBasis (qv+1+0) (clampedU x0v xlv umidv) (clampedM (qv+1+0) (mmidv.map (· + 0)))
+      = openBasis (qv+1) (clampedU x0v xlv umidv) (clampedM (qv+1) mmidv) := by simp
+  have hsu := hd0u.hsw
+  have hsv := hd0v.hsw
+  rw [e0u] at hsu
+  rw [e0v] at hsv
+  rw [← hb0] at hdu hlu hsu
+  rw [← hb1] at hdv hlv hsv
+  obtain ⟨o'', h1, h2, h3, h4, h5⟩ := lower_after_raise_surface o tol hw au av hnz _ _ Eu Ev hdu hdv hlu hlv hsu hsv o' himp
+  exact ⟨o', o'', hpub, h1, h2, h3, h4, h5⟩
+
 /-- **C05, geometry for VOLUMES on clamped continuous bases — FULL (no analytic hypothesis).**
 The three-directional analogue of `C05_geometry_clamped_surface`: `o` well formed with three
 parametric directions, every basis clamped continuous (form of `C05_knots`, interior multiplicities
@@ -540,6 +661,71 @@ theorem C05_geometry_clamped_volume (tol : K) (htol : 0 < tol)
     exact mul_nonneg (hpos a0 (Finset.mem_range.mp ha0) a1 (Finset.mem_range.mp ha1) j (Finset.mem_range.mp hj))
       (hEw0 j k2)
 
+/-- **C05, `lower_order` undoes `raise_order` on VOLUMES — FULL (no analytic hypothesis).**
+The three-directional analogue of `C05_lower_left_inverse_clamped_surface`: hypotheses of
+`C05_geometry_clamped_volume` with all original orders at least 2; `lower_order(a_u, a_v, a_w)` of the
+volume `raise_order(a_u, a_v, a_w)` returns succeeds and gives a NEW object with the original bases,
+shape, rationality and exactly the original control points. -/
+theorem C05_lower_left_inverse_clamped_volume (tol : K) (htol : 0 < tol)
+    (qu au : ℕ) (hqu : 1 ≤ qu) (x0u xlu : K) (umidu : List K) (mmidu : List ℕ)
+    (hlenu : umidu.length = mmidu.length) (hmu : ∀ j ∈ mmidu, 1 ≤ j ∧ j ≤ qu)
+    (hgapu : Separated (2 * ((qu + au : ℕ) : K) * tol) (clampedU x0u xlu umidu))
+    (qv av : ℕ) (hqv : 1 ≤ qv) (x0v xlv : K) (umidv : List K) (mmidv : List ℕ)
+    (hlenv : umidv.length = mmidv.length) (hmv : ∀ j ∈ mmidv, 1 ≤ j ∧ j ≤ qv)
+    (hgapv : Separated (2 * ((qv + av : ℕ) : K) * tol) (clampedU x0v xlv umidv))
+    (qw aw : ℕ) (hqw : 1 ≤ qw) (x0w xlw : K) (umidw : List K) (mmidw : List ℕ)
+    (hlenw : umidw.length = mmidw.length) (hmw : ∀ j ∈ mmidw, 1 ≤ j ∧ j ≤ qw)
+    (hgapw : Separated (2 * ((qw + aw : ℕ) : K) * tol) (clampedU x0w xlw umidw))
+    (hnz : au ≠ 0 ∨ av ≠ 0 ∨ aw ≠ 0)
+    (o : Obj K) (hw : C06.WF o 3)
+    (hb0 : o.basis 0 = openBasis (qu+1) (clampedU x0u xlu umidu) (clampedM (qu+1) mmidu))
+    (hb1 : o.basis 1 = openBasis (qv+1) (clampedU x0v xlv umidv) (clampedM (qv+1) mmidv))
+    (hb2 : o.basis 2 = openBasis (qw+1) (clampedU x0w xlw umidw) (clampedM (qw+1) mmidw)) :
+    ∃ o' o'', o.raiseOrder tol [(au : Int), (av : Int), (aw : Int)] none = .ok (.self, o')
+      ∧ o'.lowerOrder tol [(au : Int), (av : Int), (aw : Int)] = .ok (.new, o'') ∧ o''.bases = o.bases
+      ∧ o''.cps.shape = o.cps.shape ∧ o''.rational = o.rational
+      ∧ ∀ a0, a0 < (o.basis 0).numFunctions → ∀ a1, a1 < (o.basis 1).numFunctions →
+          ∀ j, j < (o.basis 2).numFunctions → ∀ i, i < o.ncomp →
+          o''.cps.entry4 (o.basis 1).numFunctions (o.basis 2).numFunctions o.ncomp a0 a1 j i
+            = o.cps.entry4 (o.basis 1).numFunctions (o.basis 2).numFunctions o.ncomp a0 a1 j i := by
+  obtain ⟨o', himp, hpub, _⟩ := C05_geometry_clamped_volume tol htol qu au (by omega) x0u xlu umidu mmidu hlenu hmu hgapu
+    qv av (by omega) x0v xlv umidv mmidv hlenv hmv hgapv qw aw (by omega) x0w xlw umidw mmidw hlenw hmw hgapw
+    hnz o hw hb0 hb1 hb2
+  obtain ⟨Eu, _, hdu⟩ := dirOK_clamped tol htol qu au (by omega) x0u xlu umidu mmidu hlenu hmu hgapu
+  obtain ⟨Ev, _, hdv⟩ := dirOK_clamped tol htol qv av (by omega) x0v xlv umidv mmidv hlenv hmv hgapv
+  obtain ⟨Ew, _, hdw⟩ := dirOK_clamped tol htol qw aw (by omega) x0w xlw umidw mmidw hlenw hmw hgapw
+  have mono : ∀ (q a : ℕ), 1 ≤ q → tol ≤ 2 * ((q + a : ℕ) : K) * tol ∧ 2 * ((q + 0 : ℕ) : K) * tol ≤ 2 * ((q + a : ℕ) : K) * tol := by
+    intro q a hq
+    have h1 : (1 : K) ≤ ((q + a : ℕ) : K) := by exact_mod_cast (by omega : 1 ≤ q + a)
+    have h2 : ((q + 0 : ℕ) : K) ≤ ((q + a : ℕ) : K) := by exact_mod_cast (by omega : q + 0 ≤ q + a)
+    constructor <;> nlinarith
+  have hlu := lowerOrder_raised tol htol (qu+1) au (by omega) x0u xlu umidu mmidu hlenu
+    (separated_mono (mono qu au hqu).1 hgapu) (fun j hj => (hmu j hj).1)
+  have hlv := lowerOrder_raised tol htol (qv+1) av (by omega) x0v xlv umidv mmidv hlenv
+    (separated_mono (mono qv av hqv).1 hgapv) (fun j hj => (hmv j hj).1)
+  have hlw := lowerOrder_raised tol htol (qw+1) aw (by omega) x0w xlw umidw mmidw hlenw
+    (separated_mono (mono qw aw hqw).1 hgapw) (fun j hj => (hmw j hj).1)
+  obtain ⟨_, _, hd0u⟩ := dirOK_clamped tol htol qu 0 (by omega) x0u xlu umidu mmidu hlenu hmu
+    (separated_mono (mono qu au hqu).2 hgapu)
+  obtain ⟨_, _, hd0v⟩ := dirOK_clamped tol htol qv 0 (by omega) x0v xlv umidv mmidv hlenv hmv
+    (separated_mono (mono qv av hqv).2 hgapv)
+  obtain ⟨_, _, hd0w⟩ := dirOK_clamped tol htol qw 0 (by omega) x0w xlw umidw mmidw hlenw hmw
+    (separated_mono (mono qw aw hqw).2 hgapw)
+  have e0 : ∀ (q : ℕ) (x0 xl : K) (um : List K) (mm : List ℕ),
+      openBasis (q+1+0) (clampedU x0 xl um) (clampedM (q+1+0) (mm.map (· + 0)))
+        = openBasis (q+1) (clampedU x0 xl um) (clampedM (q+1) mm) := by
+    intro q x0 xl um mm; simp
+  have hsu := hd0u.hsw
+  have hsv := hd0v.hsw
+  have hsw := hd0w.hsw
+  rw [e0] at hsu hsv hsw
+  rw [← hb0] at hdu hlu hsu
+  rw [← hb1] at hdv hlv hsv
+  rw [← hb2] at hdw hlw hsw
+  obtain ⟨o'', h1, h2, h3, h4, h5⟩ := lower_after_raise_volume o tol hw au av aw hnz _ _ _ Eu Ev Ew hdu hdv hdw
+    hlu hlv hlw hsu hsv hsw o' himp
+  exact ⟨o', o'', hpub, h1, h2, h3, h4, h5⟩
+
 omit [IsStrictOrderedRing K] in
 /-- **C05, API contract of `SplineObject.raise_order` / `set_order`** (any pardim).
 With `rs` the normalised per-direction amounts (`*raises, direction=` handling):
@@ -616,6 +802,22 @@ example : ∃ b', (openBasis 3 (clampedU (0 : ℚ) 2 [1]) (clampedM 3 [2])).rais
   have h := C05_knots (K := ℚ) (1/100) (by norm_num) 3 2 (by norm_num) 0 2 [1] [2] rfl
     (by simp [Separated, clampedU]; norm_num) (by simp)
   exact ⟨_, h.1, rfl, by simp [openBasis, clampedU, clampedM, expand, List.replicate], h.2.2.2.2.2.2.2.2.2 (by norm_num)⟩
+
+/-- `C05_knots_periodic` on the basis of the listed finding: order 3, continuity 0, knots
+    `-1,0,0,1,2,2,3` (period `[0,0,1]`, `T = 2`), raised by 1: knots `-1,0,0,0,1,1,2,2,2,3`. -/
+example : ∃ b', ({ order := 3, knots := #[-1,0,0,1,2,2,3], periodic := 0 } : Basis ℚ).raiseOrder (1/100) 1 = .ok b'
+    ∧ b'.knots = #[-1,0,0,0,1,1,2,2,2,3] ∧ b'.order = 4 ∧ b'.periodic = 0
+    ∧ b'.lowerOrder (1/100) 1 = .error .name := by
+  have hd : PerData (1/100 : ℚ) 3 0 0 [1] 2 [1] 2 :=
+    ⟨rfl, by norm_num, by simp, by simp [Separated]; norm_num, by simp, by simp, by norm_num, by norm_num,
+      by norm_num⟩
+  have h := C05_knots_periodic hd (by norm_num) 1
+  have hb : perBasis 3 0 ((0 : ℚ) :: [1]) (2 :: [1]) 2 = { order := 3, knots := #[-1,0,0,1,2,2,3], periodic := 0 } := by
+    simp [perBasis, perKnots, expand]; norm_num
+  have hb' : (perBasis (3 + 1) 0 ((0 : ℚ) :: [1]) ((2 :: [1]).map (· + 1)) 2).knots = #[-1,0,0,0,1,1,2,2,2,3] := by
+    simp [perBasis, perKnots, expand]; norm_num
+  rw [hb] at h
+  exact ⟨_, h.1, hb', rfl, rfl, h.2.2.2.2.2.2.2.2.2.2 1 (by norm_num) (by norm_num)⟩
 
 attribute [local instance] c05BasisDecEq
 
